@@ -79,6 +79,9 @@ def range_cases(rng, tier):
     return out
 
 
+PROPS_FILES = ['C10', 'C10dp']
+
+
 def units():
     thms = ['C10_bank_table', 'C10_alias', 'C10_get_rmode', 'C10_set_rmode', 'C10_rw', 'C10_history', 'C10_get',
             'C10_get_pc', 'C10_set', 'C10_get_spsr', 'C10_set_spsr']
@@ -86,4 +89,5 @@ def units():
              'registers.Registers.get', 'registers.Registers.set', 'registers.Registers.get_spsr',
              'registers.Registers.set_spsr']
     return [Unit('banking', thms, ['Proofs/BankProofs.v'], needs, bank_cases, IMPORTS, SPEC_IMPORTS),
-            Unit('range_search', [], [], [], range_cases, IMPORTS, 'From Coq Require Import ZArith List.')]
+            Unit('range_search', ['C10_dp_range', 'C10_ictx_values'], ['Proofs/DPRange.v', 'Proofs/StepDP.v'], [], range_cases, IMPORTS,
+                 'From Coq Require Import ZArith List.')]
